@@ -115,7 +115,23 @@ func doMatchIn(expression *grammar.MatchExpression, value reflect.Value) (bool, 
 
 	switch kind := value.Kind(); kind {
 	case reflect.Map:
-		found := value.MapIndex(reflect.ValueOf(matchValue))
+		// The match value has to be read in the map's key type: looking up a
+		// string in a map keyed by anything else panics.
+		keyType := value.Type().Key()
+		keyValue, err := getMatchExprValue(expression, keyType.Kind())
+		if err != nil {
+			return false, fmt.Errorf("error getting match value in expression: %w", err)
+		}
+		rkey := reflect.ValueOf(keyValue)
+		if !rkey.Type().ConvertibleTo(keyType) {
+			return false, fmt.Errorf("Cannot perform in/contains operations on a map with keys of type %s for selector: %q", keyType, expression.Selector)
+		}
+		converted := rkey.Convert(keyType)
+		if keyType.Kind() != reflect.Interface && converted.Convert(rkey.Type()).Interface() != keyValue {
+			// the value does not fit into the key type so it cannot be a key
+			return false, nil
+		}
+		found := value.MapIndex(converted)
 		return found.IsValid(), nil
 
 	case reflect.Slice, reflect.Array:
